@@ -33,7 +33,9 @@ Definition fn_react (f:fnode) (x:rxframe) : fnode * list rxframe :=
 (* ---------- participants and the bus ---------- *)
 Inductive pkind : Type := PLib (r:rnode) | PRef (f:fnode).
 Record part := { p_on : bool; p_kind : pkind; p_inbox : list rxframe }.
-Record net := { nt_parts : list part; nt_clk : Z * Z (* the process-wide statics of N2kMillis64() in the 32-bit build *) }.
+Record net := { nt_parts : list part;
+                nt_clk : Z * Z;   (* the process-wide statics of N2kMillis64() in the 32-bit build *)
+                nt_sync : Z       (* tN2kSyncScheduler::SyncOffset, a static member: shared by all tNMEA2000 objects of one process (the harness) *) }.
 
 Inductive nevent : Type :=
 | NTx (i:Z) (f:rxframe)          (* participant i put this frame on the bus *)
@@ -55,9 +57,10 @@ Fixpoint frames_of (evs:list event) : list rxframe :=
   end.
 
 Definition get_part (nt:net) (i:Z) : option part := if i <? 0 then None else nth_error (nt_parts nt) (Z.to_nat i).
-Definition set_part (nt:net) (i:Z) (p:part) (clk:Z*Z) : net := {| nt_parts := zset (nt_parts nt) i p; nt_clk := clk |}.
+Definition set_part (nt:net) (i:Z) (p:part) (clk:Z*Z) : net := {| nt_parts := zset (nt_parts nt) i p; nt_clk := clk; nt_sync := nt_sync nt |}.
+Definition set_sync (nt:net) (s:Z) : net := {| nt_parts := nt_parts nt; nt_clk := nt_clk nt; nt_sync := s |}.
 Definition emit (nt:net) (i:Z) (fs:list rxframe) : net * list nevent :=
-  ({| nt_parts := bcast (nt_parts nt) i fs; nt_clk := nt_clk nt |}, map (NTx i) fs).
+  ({| nt_parts := bcast (nt_parts nt) i fs; nt_clk := nt_clk nt; nt_sync := nt_sync nt |}, map (NTx i) fs).
 
 Definition reset_addr_changed (r:rnode) : rnode :=
   let n := rn r in
@@ -87,8 +90,8 @@ Inductive nop : Type :=
 Section WithGroupFunctions.
 Variable gf : rnode -> slot -> rnode * list event.
 
-Definition lib_poll (r:rnode) (clk:Z*Z) : rnode * list event * (Z*Z) :=
-  let '(r1, ev) := poll gf (with_clk r clk) in (r1, ev, r_clk r1).
+Definition lib_poll (r:rnode) (clk:Z*Z) (sync:Z) : rnode * list event * (Z*Z) * Z :=
+  let '(r1, ev) := poll gf (with_sync (with_clk r clk) sync) in (r1, ev, r_clk r1, r_sync r1).
 
 (* ParseMessages of participant i (if it is a started library node), frames onto the bus *)
 Definition poll_part (nt:net) (i:Z) : net * list nevent :=
@@ -96,8 +99,8 @@ Definition poll_part (nt:net) (i:Z) : net * list nevent :=
   | Some p =>
     match p_kind p with
     | PLib r => if p_on p then
-                  let '(r1, ev, clk) := lib_poll r (nt_clk nt) in
-                  emit (set_part nt i {| p_on := true; p_kind := PLib r1; p_inbox := p_inbox p |} clk) i (frames_of ev)
+                  let '(r1, ev, clk, sync) := lib_poll r (nt_clk nt) (nt_sync nt) in
+                  emit (set_sync (set_part nt i {| p_on := true; p_kind := PLib r1; p_inbox := p_inbox p |} clk) sync) i (frames_of ev)
                 else (nt, [])
     | PRef _ => (nt, [])
     end
@@ -137,9 +140,9 @@ Definition net_step (nt:net) (o:nop) : net * list nevent :=
     | None => (nt, [])
     end
   | NTick dt =>
-    let nt1 := {| nt_parts := map (advance dt) (nt_parts nt); nt_clk := nt_clk nt |} in
+    let nt1 := {| nt_parts := map (advance dt) (nt_parts nt); nt_clk := nt_clk nt; nt_sync := nt_sync nt |} in
     tick_polls (length (nt_parts nt1)) 0 nt1
-  | NCmd name addr src => ({| nt_parts := to_all (nt_parts nt) (cmd_frames name addr src); nt_clk := nt_clk nt |}, [])
+  | NCmd name addr src => ({| nt_parts := to_all (nt_parts nt) (cmd_frames name addr src); nt_clk := nt_clk nt; nt_sync := nt_sync nt |}, [])
   | NAck i =>
     match get_part nt i with
     | Some p =>
@@ -161,7 +164,7 @@ Definition net_step (nt:net) (o:nop) : net * list nevent :=
       end
     | None => (nt, [])
     end
-  | NRaw f => ({| nt_parts := to_all (nt_parts nt) [f]; nt_clk := nt_clk nt |}, [])
+  | NRaw f => ({| nt_parts := to_all (nt_parts nt) [f]; nt_clk := nt_clk nt; nt_sync := nt_sync nt |}, [])
   end.
 
 Fixpoint net_run (nt:net) (ops:list nop) : net * list (list nevent) :=
@@ -174,7 +177,7 @@ End WithGroupFunctions.
 (* construction: every participant is created (not started) at the clock origin *)
 Definition mk_fnode (pref name:Z) : fnode := {| fn_addr := c_N2kNullCanBusAddress; fn_pref := pref; fn_end := claim_end_of pref; fn_name := name |}.
 Definition mk_part (k:pkind) : part := {| p_on := false; p_kind := k; p_inbox := [] |}.
-Definition mk_net (ks:list pkind) : net := {| nt_parts := map mk_part ks; nt_clk := (0, 0) |}.
+Definition mk_net (ks:list pkind) : net := {| nt_parts := map mk_part ks; nt_clk := (0, 0); nt_sync := 0 |}.
 
 (* observations used by the driver and by the statements *)
 Definition part_addrs (p:part) : list Z :=
